@@ -189,6 +189,40 @@ def constraintStmtOk (r : Req) : Stmt → Bool
 
 def constraintOk (r : Req) (stmts : List Stmt) : Bool := stmts.all (constraintStmtOk r)
 
+/-- dialects on which the type-bound CHECK of the old type is dropped with a type change (SQLite cannot
+ALTER constraints; on the MySQL family type-bound CHECKs are left alone) -/
+def dropsTypeCk (d : Dialect) : Bool := !(d == .sqlite || d.isMySQL)
+
+/-- dialects on which the CHECK of the new type is added with a type change (all but SQLite) -/
+def addsTypeCk (d : Dialect) : Bool := !(d == .sqlite)
+
+def isDropOf (n : String) : Stmt → Bool
+  | .dropConstraint _ n' => n' == n
+  | _ => false
+
+def isAddOf (nm : Option String) : Stmt → Bool
+  | .addConstraint _ nm' _ => nm' == nm
+  | _ => false
+
+/-- a type change is complete: unless the call raised, the named CHECK constraint the stated
+existing type owns on this dialect is dropped and the CHECK constraint the new type owns is added —
+whichever way the constraint-owning schema type is reached (directly, as the impl of a
+TypeDecorator, as the dialect's variant): `Ty.ck` is the constraint of the *effective* type -/
+def constraintComplete (d : Dialect) (r : Req) (o : Out) : Bool :=
+  o.err.isSome ||
+  ((match r.type_, r.exType with
+    | some _, some e =>
+      (match e.ck with
+       | some (some n) => !dropsTypeCk d || o.stmts.any (isDropOf n)
+       | _ => true)
+    | _, _ => true) &&
+   (match r.type_ with
+    | some t =>
+      (match t.ck with
+       | some nm => !addsTypeCk d || o.stmts.any (isAddOf nm)
+       | none => true)
+    | none => true))
+
 /-- PostgreSQL identity transitions the dialect can express -/
 def pgIdentityOk (r : Req) : Bool :=
   match r.serverDefault, r.exDefault with
